@@ -310,67 +310,135 @@ def r3_accumulation(ctx):
         ctx.check(f"'{col}': m.proportion * {f}" in src, SU, "Substance.data_composite", f"total {col} is count-weighted", detail=None)
 
 
+def _rewrite(expr, mapping):
+    """Replace sub-expressions (by normalised text) with names."""
+    from ..normalise import clone
+
+    class T(ast.NodeTransformer):
+        def visit(self, n):
+            if isinstance(n, ast.expr):
+                k = norm(n)
+                if k in mapping:
+                    return ast.Name(id=mapping[k], ctx=ast.Load())
+            return self.generic_visit(n)
+    return T().visit(clone(expr))
+
+
 def r4_species(ctx):
+    from ..flowexpr import paths
     fn = ctx.fn(EL, "Element.get_isotope")
-    env = {}
-    ev = SymEval({"isotopes.Z": Term.sym("Z")})
-    got = {}
-    for st in K.body_nodoc(fn):
-        if isinstance(st, ast.Assign) and len(st.targets) == 1 and isinstance(st.targets[0], ast.Name):
-            t = st.targets[0].id
-            v = st.value
-            if t == "iso" and isinstance(v, ast.IfExp):
-                ev.env["iso"] = Term.sym("A")           # an isotope was requested
-                got["iso_default"] = norm(v)
-            elif t == "ion" and isinstance(v, ast.IfExp):
-                ev.env["ion"] = Term.sym("q")
-            elif t in ("N", "e", "Z"):
-                try:
-                    got[t] = ev.ev(v)
-                    ev.env[t] = got[t]
-                except NotSymbolic:
-                    got[t] = None
-            elif t == "A":
-                got["A"] = norm(v)
+    pa = [a.arg for a in fn.args.args]
+    if len(pa) != 4:
+        ctx.unrecognised(EL, "Element.get_isotope", "signature", f"parameters {pa}")
+        return
+    _, p_el, p_iso, p_ion = pa
+    ROW = f"PERIODIC_TABLE[{p_el}]"
+    ps = paths(fn)
+    good = [q for q in ps if q.status == "return"]
+    ret = None
+    if len(good) == 1:
+        ret = [e for e in good[0].events if e.kind == "return"][-1].resolved
+    if not (isinstance(ret, ast.Tuple) and len(ret.elts) == 7):
+        ctx.unrecognised(EL, "Element.get_isotope", "formula N", "assignment not found / not symbolic")
+        return
+    NA_, A_, Z_, N_, e_, ISO, ION = ret.elts
+    mapping = {norm(ISO): "A", norm(ION): "q", f"{ROW}.Z": "Z"}
     A, Z, q = Term.sym("A"), Term.sym("Z"), Term.sym("q")
-    for name, want in (("N", A - Z), ("e", Z + q), ("Z", Z)):
-        g = got.get(name)
-        if g is None:
+    for name, expr, want in (("N", N_, A - Z), ("e", e_, Z + q), ("Z", Z_, Z)):
+        try:
+            g = SymEval({}).ev(_rewrite(expr, mapping))
+        except NotSymbolic:
             ctx.unrecognised(EL, "Element.get_isotope", f"formula {name}", "assignment not found / not symbolic")
-        else:
-            ctx.check(g.equals(want), EL, "Element.get_isotope", f"{name} formula", detail=g.key(), expected=want.key())
-    ctx.check(got.get("A") == "Quantity(M, Units.ATOMIC_MASS) + Quantity(ion, '[m_e]')", EL, "Element.get_isotope",
-              "mass = isotope mass + charge number * electron mass", detail=got.get("A"))
-    s = norm(fn)
-    ctx.form("if str(iso) not in isotopes.A: raise" in s.replace("\n", " ") and "M, NA = isotopes.A[str(iso)]" in s and
-             "return (NA, A, Z, N, e, iso, ion)" in s, EL, "Element.get_isotope", "unknown isotope is an error; data come from the table row")
+            continue
+        if g.atoms() - {"A", "Z", "q"}:
+            ctx.unrecognised(EL, "Element.get_isotope", f"formula {name}", f"term {g.key()} has parts the abstraction does not interpret")
+            continue
+        ctx.check(g.equals(want), EL, "Element.get_isotope", f"{name} formula", detail=g.key(), expected=want.key())
+    iso_forms = (f"{p_iso} if {p_iso} else {ROW}.Z * 2", f"{p_iso} or {ROW}.Z * 2")
+    ion_forms = (f"{p_ion} if {p_ion} else 0", f"{p_ion} or 0")
+    ctx.form(norm(ISO) in iso_forms and norm(ION) in ion_forms, EL, "Element.get_isotope",
+             "defaults: mass number 2Z and neutral atom when not requested", detail=[norm(ISO), norm(ION)])
+    cell = f"{ROW}.A[str({norm(ISO)})]"
+    want_A = f"Quantity({cell}[0], Units.ATOMIC_MASS) + Quantity({norm(ION)}, '[m_e]')"
+    got_A = norm(A_)
+    if got_A == want_A:
+        ctx.holds(EL, "Element.get_isotope", "mass = isotope mass + charge number * electron mass", detail="Quantity(M, Units.ATOMIC_MASS) + Quantity(ion, '[m_e]')")
+    elif isinstance(A_, ast.BinOp) and all(isinstance(x, ast.Call) and dotted_name(x.func) == "Quantity" for x in (A_.left, A_.right)) or \
+            (isinstance(A_, ast.Call) and dotted_name(A_.func) == "Quantity"):
+        ctx.violated(EL, "Element.get_isotope", "mass = isotope mass + charge number * electron mass", detail=got_A[:200], expected=want_A[:200])
+    else:
+        ctx.unrecognised(EL, "Element.get_isotope", "mass = isotope mass + charge number * electron mass", f"mass term {got_A[:160]}")
+    err = [q for q in ps if q.status == "raise" and any(norm(t.resolved) == f"str({norm(ISO)}) not in {ROW}.A" and t.extra for t in q.tests())]
+    ok_not = all(any(norm(t.resolved) == f"str({norm(ISO)}) not in {ROW}.A" and not t.extra for t in q.tests()) for q in good)
+    ctx.form(bool(err) and ok_not and norm(NA_) == f"{cell}[1]", EL, "Element.get_isotope", "unknown isotope is an error; data come from the table row",
+             detail=[norm(NA_)[:80]])
     # most abundant: argmax over values, index into keys in the same order
     fn = ctx.fn(EL, "Element.get_abundant")
-    s = norm(fn)
-    arg = [c for c in ast.walk(fn) if isinstance(c, ast.Call) and dotted_name(c.func) in ("np.argmax", "numpy.argmax")]
-    keys = [c for c in ast.walk(fn) if isinstance(c, ast.Subscript) and norm(c.slice) == "idmax"]
-    if len(arg) != 1 or len(keys) != 1:
+    pa = [a.arg for a in fn.args.args]
+    ROW = f"PERIODIC_TABLE[{pa[1]}]" if len(pa) > 1 else "?"
+    rets = [e.resolved for q in paths(fn) for e in q.events if e.kind == "return"]
+    arg = [c for r in rets for c in ast.walk(r) if isinstance(c, ast.Call) and dotted_name(c.func) in ("np.argmax", "numpy.argmax")]
+    keys = [c for r in rets for c in ast.walk(r) if isinstance(c, ast.Subscript) and any(x is arg[0] for x in ast.walk(c.slice))] if arg else []
+    if len(arg) != 1 or len(keys) != 1 or not arg[0].args:
         ctx.unrecognised(EL, "Element.get_abundant", "arg-max", "argmax/index idiom not found")
     else:
-        a_src, k_src = norm(arg[0].args[0]), norm(keys[0].value)
-        ok_vals = a_src == "[iso[1] for iso in isotopes.A.values()]"
+        vals, ks = arg[0].args[0], keys[0].value
+        a_src, k_src = norm(vals), norm(ks)
+        col = None
+        if isinstance(vals, (ast.ListComp, ast.GeneratorExp)) and len(vals.generators) == 1 and not vals.generators[0].ifs \
+                and norm(vals.generators[0].iter) == f"{ROW}.A.values()" and isinstance(vals.elt, ast.Subscript) \
+                and norm(vals.elt.value) == norm(vals.generators[0].target) and isinstance(vals.elt.slice, ast.Constant):
+            col = vals.elt.slice.value
+        k_ok = k_src in (f"list({ROW}.A.keys())", f"list({ROW}.A)") or (
+            isinstance(ks, ast.Call) and dotted_name(ks.func) == "list" and len(ks.args) == 1 and isinstance(ks.args[0], (ast.GeneratorExp, ast.ListComp))
+            and len(ks.args[0].generators) == 1 and not ks.args[0].generators[0].ifs and norm(ks.args[0].elt) == norm(ks.args[0].generators[0].target)
+            and norm(ks.args[0].generators[0].iter) in (f"{ROW}.A.keys()", f"{ROW}.A"))
         reordered = any(w in k_src for w in ("sorted(", "reversed(", "set(")) or any(w in a_src for w in ("sorted(", "reversed("))
         if reordered:
             ctx.violated(EL, "Element.get_abundant", "abundances and mass numbers are enumerated in the same order",
                          detail={"abundances": a_src, "mass_numbers": k_src},
                          expected="both from isotopes.A in table order (string keys do not sort numerically: '100' < '92')")
-        elif ok_vals and k_src in ("list((A for A in isotopes.A.keys()))", "list(isotopes.A.keys())", "list(isotopes.A)"):
+        elif col is not None and k_ok:
             ctx.holds(EL, "Element.get_abundant", "abundances and mass numbers are enumerated in the same order",
                       detail={"abundances": a_src, "mass_numbers": k_src})
         else:
             ctx.unrecognised(EL, "Element.get_abundant", "arg-max alignment", f"{a_src} / {k_src}")
-        ctx.check("[iso[1]" in a_src, EL, "Element.get_abundant", "the maximised column is the abundance (second entry)", detail=a_src)
+        if col is None:
+            ctx.unrecognised(EL, "Element.get_abundant", "the maximised column is the abundance (second entry)", f"maximised list is {a_src}")
+        else:
+            ctx.check(col == 1, EL, "Element.get_abundant", "the maximised column is the abundance (second entry)", detail=a_src)
     fn = ctx.fn(EL, "Element.get_natural")
-    s = norm(fn)
-    for col in ("A", "Z", "N", "e", "iso"):
-        ctx.check(f"np.average(rc.{col}, weights=rc.NA)" in s, EL, "Element.get_natural", f"{col} is the abundance-weighted mean")
-    ctx.form("for iso in isotopes.A.keys(): rc.append(self.get_isotope(element, int(iso), ionisation))" in s.replace("\n", " "), EL,
-             "Element.get_natural", "every tabulated isotope enters the mean")
+    pa = [a.arg for a in fn.args.args]
+    ROW = f"PERIODIC_TABLE[{pa[1]}]" if len(pa) > 1 else "?"
+    qs = [q for q in paths(fn) if q.status == "return"]
+    rets = [e.resolved for q in qs for e in q.events if e.kind == "return"]
+    cols = None
+    wth = [w for w in ast.walk(fn) if isinstance(w, ast.With)]
+    rc = None
+    if len(wth) == 1 and len(wth[0].items) == 1 and isinstance(wth[0].items[0].optional_vars, ast.Name):
+        rc = wth[0].items[0].optional_vars.id
+        c = wth[0].items[0].context_expr
+        if isinstance(c, ast.Call) and dotted_name(c.func) == "RowCollector" and c.args and isinstance(c.args[0], ast.List):
+            cols = [e.value for e in c.args[0].elts if isinstance(e, ast.Constant)]
+    if len(rets) != 1 or not isinstance(rets[0], ast.Tuple) or rc is None or cols != ["NA", "A", "Z", "N", "e", "iso", "ion"] or len(rets[0].elts) != 7:
+        ctx.unrecognised(EL, "Element.get_natural", "weighted means", "return tuple / RowCollector columns not recognised")
+    else:
+        el = rets[0].elts
+        for i, col in ((1, "A"), (2, "Z"), (3, "N"), (4, "e"), (5, "iso")):
+            c = el[i]
+            if isinstance(c, ast.Call) and dotted_name(c.func) in ("np.average", "numpy.average") and c.args:
+                w = next((k.value for k in c.keywords if k.arg == "weights"), c.args[2] if len(c.args) > 2 else None)
+                ctx.check(norm(c.args[0]) == f"{rc}.{col}" and w is not None and norm(w) == f"{rc}.NA", EL, "Element.get_natural",
+                          f"{col} is the abundance-weighted mean", detail=norm(c)[:100], expected=f"np.average({rc}.{col}, weights={rc}.NA)")
+            elif isinstance(c, ast.Call) and dotted_name(c.func) in ("np.mean", "numpy.mean", "np.sum", "np.median"):
+                ctx.violated(EL, "Element.get_natural", f"{col} is the abundance-weighted mean", detail=norm(c)[:100], expected=f"np.average({rc}.{col}, weights={rc}.NA)")
+            else:
+                ctx.unrecognised(EL, "Element.get_natural", f"{col} is the abundance-weighted mean", f"column term {norm(c)[:100]}")
+        loops = [e for e in qs[0].events if e.kind == "loop"]
+        body = [norm(e.resolved) for e in qs[0].events if e.kind == "expr" and e.extra is None]
+        ok = len(loops) == 1 and norm(loops[0].resolved) in (f"{ROW}.A.keys()", f"{ROW}.A") and \
+            f"{rc}.append(self.get_isotope({pa[1]}, int({loops[0].extra}@loop1), {pa[2]}))" in body
+        ctx.form(ok, EL, "Element.get_natural", "every tabulated isotope enters the mean", detail=body[:2])
     # suffix ladder
     fn = ctx.fn(EL, "Element.__init__")
     s = norm(fn).replace("\n", " ")
